@@ -18,14 +18,15 @@ import (
 // event-recording randomness source as the second oracle input.
 
 type c02case struct {
-	d      *big.Int
-	priv   []byte
-	e      []byte
-	stream []byte
-	chunk  int
-	zero   int
-	plan   string // what the stream was constructed to hit
-	label  string
+	d           *big.Int
+	priv        []byte
+	e           []byte
+	stream      []byte
+	chunk       int
+	zero        int
+	plan        string // what the stream was constructed to hit
+	label       string
+	eofWithLast bool // the stream ends behind the accepted candidate and the source reports io.EOF together with its last bytes
 }
 
 func c02run(r *hk.Reporter, c *c02case) {
@@ -43,6 +44,10 @@ func c02run(r *hk.Reporter, c *c02case) {
 		return
 	}
 	rd := newScript(c.stream)
+	if c.eofWithLast {
+		rd = newScript(c.stream[:model.Consumed])
+		rd.errWithFull = true
+	}
 	rd.chunk = c.chunk
 	rd.zeroEvery = c.zero
 	var rr, ss []byte
@@ -112,6 +117,16 @@ func TestVerifC02(t *testing.T) {
 	for i := 0; i < hk.N(1500, 40000); i++ {
 		d := keys[rng.Intn(len(keys))]
 		cases = append(cases, &c02case{d: d, priv: ref.B32(d), e: rng.Bytes(32), stream: rng.Bytes(32 * 8), chunk: chunks[rng.Intn(len(chunks))], plan: "random"})
+	}
+	// sources that report io.EOF TOGETHER with the last bytes of the accepted candidate (io.Reader: "it may return the
+	// (non-nil) error from the same call"): all 32 bytes were delivered, the signature is the standard's
+	for i := 0; i < hk.N(40, 400); i++ {
+		d := keys[rng.Intn(len(keys))]
+		stream := rng.Bytes(32 * 4)
+		if i%3 == 1 {
+			stream = append(ref.B32(nI), stream...)
+		}
+		cases = append(cases, &c02case{d: d, priv: ref.B32(d), e: rng.Bytes(32), stream: stream, chunk: chunks[i%len(chunks)], plan: "random", label: "eof-with-last-bytes", eofWithLast: true})
 	}
 	// digests that are not reduced: e = n, n+1, 2^256-1, FFFFFFFF||random, 0, 1
 	for i := 0; i < hk.N(60, 600); i++ {
